@@ -291,6 +291,15 @@ def job_unary(ctx, k, part):
     Mb_neg = _routes_batch(-S)
     conj = S * np.array([1.0, -1, -1, -1])
     Mb_conj = _routes_batch(conj)
+    # the free function on the whole (N,4) batch and on short batches: rows conjugated one by one
+    for nb, off in ((len(S), 0), (1, 0), (2, 1), (3, 0), (4, 2), (5, 0)):
+        if off + nb > len(S):
+            continue
+        try:
+            cb = np.asarray(O.q_conj(S[off:off + nb].copy()), float)
+            ctx.close(cb if cb.shape == (nb, 4) else np.zeros(1), conj[off:off + nb], 1e-15, 'q_conj(N rows) = every row conjugated', f'{name}#k{k} N={nb} offset={off}')
+        except Exception as ex:
+            ctx.fail('q_conj(N rows) raises', f'{name}#k{k} N={nb}', repr(ex)[:120], 'N rows')
     # short batches of every small size (an N = 3 or N = 4 batch of 4-vectors / 3x3 matrices is a square block): rows = the rows of the long batch
     for nb in (1, 2, 3, 4, 5):
         for off in (0, max(0, len(S) // 2 - 2)):
@@ -304,6 +313,26 @@ def job_unary(ctx, k, part):
             for rname in Mb:
                 ok = small[rname].shape == (nb, 3, 3)
                 ctx.close(small[rname] if ok else np.zeros(1), Mb[rname][off:off + nb], TOL, f'{rname}: an N-row batch gives the rows of the long batch (N = 1 ... 5)', f'{name}#k{k} N={nb} offset={off}')
+    # batches with missing rows (all-NaN quaternions, gaps of a recorded track): a route that answers gives every VALID row its own matrix
+    for gaps in ((2,), (1, 4), (0, 3, 5), (2, 3, 6)):
+        nb = 8
+        if len(S) < nb:
+            break
+        X = S[:nb].copy(); X[list(gaps)] = np.nan
+        for rname, fn in (('QuaternionArray.to_DCM', None), ('DCM.from_quaternion[batch]', lambda: np.asarray(DCM().from_quaternion(X.copy()))),
+                          ('q2R(v1)[batch]', lambda: np.asarray(O.q2R(X.copy(), 1))), ('q2R(v2)[batch]', lambda: np.asarray(O.q2R(X.copy(), 2)))):
+            if fn is None:
+                continue
+            try:
+                with np.errstate(all='ignore'):
+                    out = fn()
+            except Exception:
+                ctx.outcome(('nan-rows-refused', rname)); continue
+            ok = out.shape == (nb, 3, 3)
+            for i in range(nb):
+                if i in gaps:
+                    continue
+                ctx.close(out[i] if ok else np.zeros(1), Mb[rname][i], TOL, f'{rname}: valid rows of a batch with missing (NaN) rows keep their own matrices', f'{name}#k{k} gaps={gaps} row={i}')
     for rname in Mb:
         for i in range(len(S)):
             key = f'{name}#k{k} q={i}'
@@ -341,6 +370,9 @@ def job_rotate(ctx, k, part):
     name, S = _unary_set(k)[part]
     vecs = [(f'dir{j}*{m:g}', d * m) for j, d in enumerate(A.DIR3()) for m in (1e-3, 1.0, 1e3)]
     vecs.append(('generic', np.array([0.3, -1.2, 2.5])))
+    # lengths within a hair of one (but not one): a vector is not a versor, its length must come back as it went in
+    un = np.array([0.3, -1.2, 2.5]) / np.linalg.norm([0.3, -1.2, 2.5])
+    vecs += [(f'generic unit*{f!r}', un * f) for f in (1 + 4e-6, 1 - 3e-6, 1 + 1e-9, 1 - 1e-7)]
     V = np.array([v for _, v in vecs]).T      # 3 x N
     for i in range(len(S)):
         q = S[i]
